@@ -45,14 +45,14 @@ Theorem C13_today_window :
 Proof. exact (proj2 unsafe_today_refuted). Qed.
 Print Assumptions C13_today_window.
 
-(* the handler: for every statement list accepted by the checker (close the pool, one forced
-   checkpoint, exit with the configured code - in that order, logging in between) exactly one
-   checkpoint of the CURRENT state is written and the process exits with the configured code    *)
+(* the handler: for every statement list accepted by the checker (one forced checkpoint that reaches
+   the dump, then exit with the configured code; closing the pool before or after it; logging
+   anywhere) exactly one checkpoint of the CURRENT state is written and the process exits with the
+   configured code                                                                               *)
 Theorem C13_handler : forall (S : Type) (cur : S) (conf other : Z) (effs : list heff) (w : hworld S) (npw : bool),
   handler_ok npw effs = true -> exit_code w = None ->
   written (hrun cur conf other npw effs w) = written w ++ [cur]
   /\ exit_code (hrun cur conf other npw effs w) = Some conf
-  /\ pool_open (hrun cur conf other npw effs w) = false
   /\ dirty (hrun cur conf other npw effs w) = dirty w.
 Proof. exact @handler_sound. Qed.
 Print Assumptions C13_handler.
